@@ -15,6 +15,20 @@ pub enum E {
     Idx(Box<E>, Box<E>),
     Call(Box<E>, Vec<E>),
     MCall(Box<E>, &'static str, Vec<E>),
+    /// `f "s"` / `f [[s]]`: (base, token kind, text)
+    CallS(Box<E>, &'static str, &'static str),
+    /// `f{…}`
+    CallT(Box<E>, Vec<Fd>),
+    Table(Vec<Fd>),
+    /// `function(a, b, ...) end`: number of names, vararg
+    Closure(usize, bool),
+}
+
+#[derive(Clone, Debug)]
+pub enum Fd {
+    Pos(E),
+    Named(&'static str, E),
+    Keyed(E, E),
 }
 
 /// (Debug name of the BinaryOperator, text, manual precedence level, right associative, minimal level index)
@@ -74,6 +88,14 @@ pub fn gen_expr(rng: &mut Rng, depth: usize, std_level: u8) -> E {
             E::Lit(k, t)
         };
     }
+    match rng.below(12) {
+        10 => {
+            let n = rng.below(4);
+            return E::Table((0..n).map(|_| gen_field(rng, depth - 1, std_level)).collect());
+        }
+        11 => return E::Closure(rng.below(3), rng.chance(1, 2)),
+        _ => {}
+    }
     match rng.below(10) {
         0..=4 => {
             let ops: Vec<usize> = (0..BINOPS.len()).filter(|i| BINOPS[*i].4 <= std_level).collect();
@@ -87,7 +109,15 @@ pub fn gen_expr(rng: &mut Rng, depth: usize, std_level: u8) -> E {
         7 => E::Paren(Box::new(gen_expr(rng, depth - 1, std_level))),
         _ => {
             let base = gen_prefix(rng, depth - 1, std_level);
-            match rng.below(4) {
+            match rng.below(6) {
+                4 => {
+                    let (k, t) = *rng.pick(&[("TkString", "\"arg\""), ("TkString", "'a'"), ("TkLongString", "[[long arg]]")]);
+                    E::CallS(Box::new(base), k, t)
+                }
+                5 => {
+                    let n = rng.below(3);
+                    E::CallT(Box::new(base), (0..n).map(|_| gen_field(rng, depth - 1, std_level)).collect())
+                }
                 0 => E::Dot(Box::new(base), *rng.pick(FIELDS)),
                 1 => E::Idx(Box::new(base), Box::new(gen_expr(rng, depth - 1, std_level))),
                 2 => {
@@ -103,12 +133,37 @@ pub fn gen_expr(rng: &mut Rng, depth: usize, std_level: u8) -> E {
     }
 }
 
+fn gen_field(rng: &mut Rng, depth: usize, std_level: u8) -> Fd {
+    match rng.below(3) {
+        0 => Fd::Pos(gen_expr(rng, depth, std_level)),
+        1 => Fd::Named(*rng.pick(FIELDS), gen_expr(rng, depth, std_level)),
+        _ => Fd::Keyed(gen_expr(rng, depth, std_level), gen_expr(rng, depth, std_level)),
+    }
+}
+
 /// a `prefixexp`: Name | ( exp ) | prefixexp suffix
 fn gen_prefix(rng: &mut Rng, depth: usize, std_level: u8) -> E {
     let e = gen_expr(rng, depth, std_level);
     match e {
-        E::Name(_) | E::Paren(_) | E::Dot(..) | E::Idx(..) | E::Call(..) | E::MCall(..) => e,
+        E::Name(_) | E::Paren(_) | E::Dot(..) | E::Idx(..) | E::Call(..) | E::MCall(..) | E::CallS(..) | E::CallT(..) => e,
         other => E::Paren(Box::new(other)),
+    }
+}
+
+impl Fd {
+    pub fn erase(&self) -> Fd {
+        match self {
+            Fd::Pos(e) => Fd::Pos(e.erase()),
+            Fd::Named(n, e) => Fd::Named(n, e.erase()),
+            Fd::Keyed(k, e) => Fd::Keyed(k.erase(), e.erase()),
+        }
+    }
+    pub fn sexpr(&self) -> String {
+        match self {
+            Fd::Pos(e) => format!("(pos {})", e.sexpr()),
+            Fd::Named(_, e) => format!("(named {})", e.sexpr()),
+            Fd::Keyed(k, e) => format!("(keyed {} {})", k.sexpr(), e.sexpr()),
+        }
     }
 }
 
@@ -120,6 +175,10 @@ impl E {
             E::Paren(e) | E::Un(_, e) | E::Dot(e, _) => 1 + e.size(),
             E::Bin(_, l, r) | E::Idx(l, r) => 1 + l.size() + r.size(),
             E::Call(f, a) | E::MCall(f, _, a) => 1 + f.size() + a.iter().map(|x| x.size()).sum::<usize>(),
+            E::CallS(f, ..) => 1 + f.size(),
+            E::CallT(f, _) => 2 + f.size(),
+            E::Table(fs) => 1 + fs.len(),
+            E::Closure(..) => 1,
         }
     }
 
@@ -134,6 +193,10 @@ impl E {
             E::Idx(e, k) => E::Idx(Box::new(e.erase()), Box::new(k.erase())),
             E::Call(f, a) => E::Call(Box::new(f.erase()), a.iter().map(|x| x.erase()).collect()),
             E::MCall(f, n, a) => E::MCall(Box::new(f.erase()), n, a.iter().map(|x| x.erase()).collect()),
+            E::CallS(f, k, t) => E::CallS(Box::new(f.erase()), k, t),
+            E::CallT(f, fs) => E::CallT(Box::new(f.erase()), fs.iter().map(|x| x.erase()).collect()),
+            E::Table(fs) => E::Table(fs.iter().map(|x| x.erase()).collect()),
+            E::Closure(..) => self.clone(),
         }
     }
 
@@ -151,11 +214,43 @@ impl E {
             E::MCall(f, _, a) => {
                 format!("(call (colon {}){})", f.sexpr(), a.iter().map(|x| format!(" {}", x.sexpr())).collect::<String>())
             }
+            E::CallS(f, k, _) => format!("(call {} (lit {k}))", f.sexpr()),
+            E::CallT(f, fs) => format!("(call {} (table{}))", f.sexpr(), fs.iter().map(|x| format!(" {}", x.sexpr())).collect::<String>()),
+            E::Table(fs) => format!("(table{})", fs.iter().map(|x| format!(" {}", x.sexpr())).collect::<String>()),
+            E::Closure(n, va) => format!("(closure {n} {})", if *va { 1 } else { 0 }),
         }
     }
 
     fn is_prefixexp(&self) -> bool {
-        matches!(self, E::Name(_) | E::Paren(_) | E::Dot(..) | E::Idx(..) | E::Call(..) | E::MCall(..))
+        matches!(self, E::Name(_) | E::Paren(_) | E::Dot(..) | E::Idx(..) | E::Call(..) | E::MCall(..) | E::CallS(..) | E::CallT(..))
+    }
+
+    fn pr_fields(fs: &[Fd], mode: u8, rng: &mut Rng, out: &mut Vec<String>) {
+        out.push("{".into());
+        for (i, f) in fs.iter().enumerate() {
+            if i > 0 {
+                out.push(if rng.chance(1, 3) { ";".into() } else { ",".into() });
+            }
+            match f {
+                Fd::Pos(e) => e.pr(mode, rng, out),
+                Fd::Named(n, e) => {
+                    out.push(n.to_string());
+                    out.push("=".into());
+                    e.pr(mode, rng, out);
+                }
+                Fd::Keyed(k, e) => {
+                    out.push("[".into());
+                    k.pr(mode, rng, out);
+                    out.push("]".into());
+                    out.push("=".into());
+                    e.pr(mode, rng, out);
+                }
+            }
+        }
+        if !fs.is_empty() && rng.chance(1, 4) {
+            out.push(if rng.chance(1, 2) { ";".into() } else { ",".into() });
+        }
+        out.push("}".into());
     }
 
     /// Reference printer. `mode` 0: only the parentheses the manual's precedence/associativity require
@@ -168,7 +263,7 @@ impl E {
     }
 
     fn wrapped(&self, need: bool, mode: u8, rng: &mut Rng, out: &mut Vec<String>) {
-        let atom = matches!(self, E::Lit(..) | E::Name(_) | E::Paren(_));
+        let atom = matches!(self, E::Lit(..) | E::Name(_) | E::Paren(_) | E::Table(_) | E::Closure(..));
         let extra = match mode {
             1 => !atom,
             2 => rng.chance(1, 8),
@@ -234,6 +329,35 @@ impl E {
                     x.pr(mode, rng, out);
                 }
                 out.push(")".into());
+            }
+            E::CallS(f, _, t) => {
+                f.wrapped(!f.is_prefixexp(), mode, rng, out);
+                out.push(t.to_string());
+            }
+            E::CallT(f, fs) => {
+                f.wrapped(!f.is_prefixexp(), mode, rng, out);
+                E::pr_fields(fs, mode, rng, out);
+            }
+            E::Table(fs) => E::pr_fields(fs, mode, rng, out),
+            E::Closure(n, va) => {
+                out.push("function".into());
+                out.push("(".into());
+                let mut first = true;
+                for i in 0..*n {
+                    if !first {
+                        out.push(",".into());
+                    }
+                    first = false;
+                    out.push(["a", "b", "c"][i % 3].into());
+                }
+                if *va {
+                    if !first {
+                        out.push(",".into());
+                    }
+                    out.push("...".into());
+                }
+                out.push(")".into());
+                out.push("end".into());
             }
             E::MCall(f, n, a) => {
                 f.wrapped(!f.is_prefixexp(), mode, rng, out);
@@ -334,6 +458,50 @@ pub fn render(node: &LuaSyntaxNode, erase: bool) -> String {
             }
             s.push(')');
             s
+        }
+        LuaSyntaxKind::TableEmptyExpr | LuaSyntaxKind::TableArrayExpr | LuaSyntaxKind::TableObjectExpr => {
+            let mut s = String::from("(table");
+            for f in node.children() {
+                match f.kind().to_syntax() {
+                    LuaSyntaxKind::TableFieldValue => {
+                        let ks = expr_children(&f);
+                        s.push_str(&format!(" (pos {})", ks.first().map(|n| render(n, erase)).unwrap_or_else(|| "?".into())));
+                    }
+                    LuaSyntaxKind::TableFieldAssign => {
+                        let ks = expr_children(&f);
+                        let g = |i: usize| ks.get(i).map(|n| render(n, erase)).unwrap_or_else(|| "?".to_string());
+                        if first_token(&f) == Some(LuaTokenKind::TkLeftBracket) {
+                            s.push_str(&format!(" (keyed {} {})", g(0), g(1)));
+                        } else {
+                            s.push_str(&format!(" (named {})", g(0)));
+                        }
+                    }
+                    _ => {}
+                }
+            }
+            s.push(')');
+            s
+        }
+        LuaSyntaxKind::ClosureExpr => {
+            let mut n = 0;
+            let mut va = 0;
+            let mut body = "";
+            for c in node.children() {
+                match c.kind().to_syntax() {
+                    LuaSyntaxKind::ParamList => {
+                        for p in c.children().filter(|p| p.kind().to_syntax() == LuaSyntaxKind::ParamName) {
+                            if first_token(&p) == Some(LuaTokenKind::TkDots) {
+                                va = 1;
+                            } else {
+                                n += 1;
+                            }
+                        }
+                    }
+                    LuaSyntaxKind::Block => body = " body",
+                    _ => {}
+                }
+            }
+            format!("(closure {n} {va}{body})")
         }
         other => format!("(other {:?})", other),
     }
